@@ -88,6 +88,13 @@ pub(super) fn exec_merge_create_node(
     let external_id = ExternalId::from(
         *created_count as u64 + chrono::Utc::now().timestamp_nanos_opt().unwrap_or(0) as u64,
     );
+    #[cfg(luqing_studio_nervusdb_verif)]
+    let external_id = ExternalId::from(
+        *created_count as u64
+            + nervusdb_api::verif_hooks::clock_ns(
+                chrono::Utc::now().timestamp_nanos_opt().unwrap_or(0) as u64,
+            ),
+    );
     let label_id = if let Some(l) = labels.first() {
         txn.get_or_create_label_id(l)?
     } else {
